@@ -257,8 +257,11 @@ def _run_shard(binary, chunk, timeout):
     pos = 0
     while pos < len(chunk):
         data = ('\n'.join(chunk[pos:]) + '\n').encode('utf-8')
+        env = dict(os.environ)
+        env['HV_ROOT'] = V
+        env['HV_REPO'] = REPO
         p = subprocess.Popen('ulimit -s unlimited 2>/dev/null; exec ' + binary, shell=True, stdin=subprocess.PIPE,
-                             stdout=subprocess.PIPE, stderr=subprocess.DEVNULL)
+                             stdout=subprocess.PIPE, stderr=subprocess.DEVNULL, env=env)
         try:
             o, _e = p.communicate(data, timeout=timeout)
             died = 'DIED'
